@@ -628,6 +628,13 @@ Definition parse_locview_pairs (S : sections) (lv : operands) (locviews : dict Z
   | Some list_offset => locview_loop (Datatypes.S (length bs)) S lv bs pos list_offset
   end.
 
+(* the test of the inner "while" (repaired): the stream is inside the block, or a referenced list that
+   starts before the block's end (inside an object already consumed: shared tail) is still pending
+     stream.tell() < cu_end_offset or
+     (offset_index < len(all_offsets) and all_offsets[offset_index] < cu_end_offset) *)
+Definition in_block (pos cu_end_offset : Z) (offs : list Z) : bool :=
+  (pos <? cu_end_offset) || match offs with o :: _ => o <? cu_end_offset | [] => false end.
+
 (* the "if ver5:" branch; cu_end = None is the outer "while stream.tell() < endpos" test,
    Some e the inner "while stream.tell() < cu_end_offset".  offs = all_offsets[offset_index:]. *)
 Fixpoint loc5_loop (fuel : nat) (T : entry_tables) (L : hlayout) (lv : operands) (S : sections)
@@ -650,7 +657,7 @@ Fixpoint loc5_loop (fuel : nat) (T : entry_tables) (L : hlayout) (lv : operands)
             else Err (EPy "AssertionError")
           else Ok []
       | Some cu_end_offset =>
-          if pos <? cu_end_offset then
+          if in_block pos cu_end_offset offs then
             (* repaired: past the last referenced offset the rest of the unit is a gap *)
             let next_offset := match offs with o :: _ => o | [] => cu_end_offset end in
             if next_offset =? pos then
@@ -670,6 +677,52 @@ Fixpoint loc5_loop (fuel : nat) (T : entry_tables) (L : hlayout) (lv : operands)
               let next_offset := if cu_end_offset <? next_offset then cu_end_offset else next_offset in
               loc5_loop f T L lv S stream sc next_offset (Some cu_end_offset) offs
           else loc5_loop f T L lv S stream sc pos None offs
+      end
+  end.
+
+(* the walk BEFORE the repair of known_findings.d/C07.json loclists-tail-at-unit-end (kept for
+   C07_loclists_tail_at_unit_end_refuted): the inner loop ran "while stream.tell() < cu_end_offset" only.
+   cu_end = None is the outer "while stream.tell() < endpos" test,
+   Some e the inner "while stream.tell() < cu_end_offset".  offs = all_offsets[offset_index:]. *)
+Fixpoint loc5_loop_unfixed (fuel : nat) (T : entry_tables) (L : hlayout) (lv : operands) (S : sections)
+    (stream : list Z) (sc : loc_scan) (pos : Z) (cu_end : option Z) (offs : list Z)
+  : res (list (list tup)) :=
+  match fuel with
+  | O => Err EFuel
+  | Datatypes.S f =>
+      let endpos := zlen stream in
+      match cu_end with
+      | None =>
+          if pos <? endpos then
+            let bs := at_pos stream pos in
+            do (h, rest) <- parse_hdr L (s_le S) bs pos None;
+            do ver <- cint h "version";
+            if ver =? 5 then
+              do oal <- cint h "offset_after_length";
+              do ul <- cint h "unit_length";
+              loc5_loop_unfixed f T L lv S stream sc (pos + (zlen bs - zlen rest)) (Some (oal + ul)) offs
+            else Err (EPy "AssertionError")
+          else Ok []
+      | Some cu_end_offset =>
+          if pos <? cu_end_offset then
+            let next_offset := match offs with o :: _ => o | [] => cu_end_offset end in
+            if next_offset =? pos then
+              let bs := at_pos stream pos in
+              do (pairs, bs1) <- parse_locview_pairs S lv (ls_locviews sc) bs pos;
+              let pos1 := pos + (zlen bs - zlen bs1) in
+              match PyData.dict_get Z.eqb (ls_cu_map sc) pos1 with
+              | None => Err (EPy "KeyError")
+              | Some cv =>
+                  do (entries, bs2) <- parse_list_v5 (s_le S) (s_asz S) T
+                                         (get_addr (s_le S) (s_addr S) (Some (cuinfo_of cv))) bs1 pos1;
+                  do more <- loc5_loop_unfixed f T L lv S stream sc (pos1 + (zlen bs1 - zlen bs2))
+                                       (Some cu_end_offset) (tl offs);
+                  Ok ((pairs ++ entries) :: more)
+              end
+            else
+              let next_offset := if cu_end_offset <? next_offset then cu_end_offset else next_offset in
+              loc5_loop_unfixed f T L lv S stream sc next_offset (Some cu_end_offset) offs
+          else loc5_loop_unfixed f T L lv S stream sc pos None offs
       end
   end.
 
@@ -697,6 +750,15 @@ Definition loc_lists_of_scan (T : entry_tables) (L : hlayout) (lv : operands) (S
   let all_offsets := sorted_by (fun x => x) (ls_offsets sc) in
   if ver5 then
     loc5_loop (Datatypes.S (2 * length all_offsets + 2 * length stream)) T L lv S stream sc 0 None all_offsets
+  else loc4_lists S lv stream sc all_offsets.
+
+Definition iter_location_lists_unfixed (T : entry_tables) (L : hlayout) (lv : operands) (S : sections)
+    (version : Z) (stream : list Z) (cus : list cuview) : res (list (list tup)) :=
+  let ver5 := 5 <=? version in
+  do sc <- scan_locs S ver5 cus;
+  let all_offsets := sorted_by (fun x => x) (ls_offsets sc) in
+  if ver5 then
+    loc5_loop_unfixed (Datatypes.S (2 * length all_offsets + 2 * length stream)) T L lv S stream sc 0 None all_offsets
   else loc4_lists S lv stream sc all_offsets.
 
 Definition iter_location_lists (T : entry_tables) (L : hlayout) (lv : operands) (S : sections)
